@@ -24,7 +24,7 @@ func init() { register(genBackends) }
 //     function literals and `go` statements are other goroutines and are not
 //     followed.
 //  2. The scheme rule of Backend.IsUrlAllowed and the shape of the lookup loop
-//     in getBackendLocked (first entry whose url is a prefix wins).
+//     in getBackendLocked (first entry whose '/'-terminated url is a prefix wins).
 //  3. The guard of backendStorageStatic.Reload (`backendIds != ""`).
 
 var backendFiles = []string{"backend_configuration.go", "backend_storage_static.go", "backend_storage_etcd.go"}
@@ -544,8 +544,31 @@ func genBackends(c *ctx) *leanFile {
 	l.str("schemeHttp", httpRule, okRules && httpRule != "", why)
 	l.str("schemeOther", defRule, okRules && defRule != "", why)
 
-	// ---- getBackendLocked: for range entries { if !entry.IsUrlAllowed(u) {continue}; if entry.url == "" {return entry} else if strings.HasPrefix(url, entry.url) {return entry} }; return nil
-	firstMatch, prefixArgs, slashAppended := false, false, false
+	// ---- getBackendLocked:
+	//   if url[len(url)-1] != '/' { url += "/" }
+	//   for range entries { if !entry.IsUrlAllowed(u) {continue}; if entry.url == "" {return entry};
+	//     entryUrl := entry.url; if entryUrl[len(entryUrl)-1] != '/' { entryUrl += "/" }; if strings.HasPrefix(url, entryUrl) {return entry} }
+	//   return nil
+	// lookupUsesHasPrefix: the comparison is strings.HasPrefix(url, X) with X = entry.url or a loop-local copy of it;
+	// lookupEntrySlashTerminated: that copy gets a "/" appended when it does not end in one, before the comparison.
+	firstMatch, prefixArgs, slashAppended, entrySlash := false, false, false, false
+	appendsSlashTo := func(st ast.Stmt, name string) bool {
+		// if <name>[len(<name>)-1] != '/' { <name> += "/" }
+		is, ok := st.(*ast.IfStmt)
+		if !ok || is.Init != nil || is.Else != nil || len(is.Body.List) != 1 {
+			return false
+		}
+		want := name + "[len(" + name + ")-1]!='/'"
+		if strings.Join(strings.Fields(srcText(c.fset, is.Cond)), "") != want {
+			return false
+		}
+		as, ok := is.Body.List[0].(*ast.AssignStmt)
+		if !ok || as.Tok != token.ADD_ASSIGN || len(as.Lhs) != 1 || !isIdent(as.Lhs[0], name) {
+			return false
+		}
+		v, ok := strLit(as.Rhs[0])
+		return ok && v == "/"
+	}
 	if fd := findFunc(cfgFile, "backendStorageCommon", "getBackendLocked"); fd != nil && fd.Body != nil {
 		for _, st := range fd.Body.List {
 			switch s := st.(type) {
@@ -554,39 +577,60 @@ func genBackends(c *ctx) *leanFile {
 					continue
 				}
 				returnsEntry := 0
+				isEntryUrl := func(e ast.Expr) bool {
+					se, ok := e.(*ast.SelectorExpr)
+					return ok && isIdent(se.X, "entry") && se.Sel.Name == "url"
+				}
+				// loop-local copies of entry.url (top-level statements of the loop body, in order)
+				copyOf := map[string]bool{}
+				slashed := map[string]bool{}
+				compared := ""
+				for _, bst := range s.Body.List {
+					if as, ok := bst.(*ast.AssignStmt); ok && as.Tok == token.DEFINE && len(as.Lhs) == 1 && len(as.Rhs) == 1 && isEntryUrl(as.Rhs[0]) {
+						if id, ok := as.Lhs[0].(*ast.Ident); ok {
+							copyOf[id.Name] = true
+						}
+					}
+					for name := range copyOf {
+						if compared == "" && appendsSlashTo(bst, name) {
+							slashed[name] = true
+						}
+					}
+					ast.Inspect(bst, func(n ast.Node) bool {
+						if x, ok := n.(*ast.CallExpr); ok && isSel(x.Fun, "strings", "HasPrefix") && len(x.Args) == 2 && isIdent(x.Args[0], "url") {
+							if isEntryUrl(x.Args[1]) {
+								prefixArgs, compared = true, "entry.url"
+							} else if id, ok := x.Args[1].(*ast.Ident); ok && copyOf[id.Name] {
+								prefixArgs, compared = true, id.Name
+							}
+						}
+						return true
+					})
+				}
+				entrySlash = compared != "" && slashed[compared]
 				ast.Inspect(s.Body, func(n ast.Node) bool {
-					switch x := n.(type) {
-					case *ast.ReturnStmt:
+					if x, ok := n.(*ast.ReturnStmt); ok {
 						if len(x.Results) == 1 && isIdent(x.Results[0], "entry") {
 							returnsEntry++
 						} else {
 							returnsEntry = -100
-						}
-					case *ast.CallExpr:
-						if isSel(x.Fun, "strings", "HasPrefix") && len(x.Args) == 2 && isIdent(x.Args[0], "url") {
-							if se, ok := x.Args[1].(*ast.SelectorExpr); ok && isIdent(se.X, "entry") && se.Sel.Name == "url" {
-								prefixArgs = true
-							}
 						}
 					}
 					return true
 				})
 				firstMatch = returnsEntry == 2
 			case *ast.IfStmt:
-				// if url[len(url)-1] != '/' { url += "/" }
-				if len(s.Body.List) == 1 {
-					if as, ok := s.Body.List[0].(*ast.AssignStmt); ok && as.Tok == token.ADD_ASSIGN && len(as.Lhs) == 1 && isIdent(as.Lhs[0], "url") {
-						if v, ok := strLit(as.Rhs[0]); ok && v == "/" {
-							slashAppended = true
-						}
-					}
+				if appendsSlashTo(s, "url") {
+					slashAppended = true
 				}
 			}
 		}
 	}
 	l.boolean("lookupFirstMatchWins", firstMatch, firstMatch, "getBackendLocked: `for _, entry := range entries` returning `entry` at the first match (two return sites) not found")
-	l.boolean("lookupUsesHasPrefix", prefixArgs, prefixArgs, "getBackendLocked: strings.HasPrefix(url, entry.url) not found")
+	l.boolean("lookupUsesHasPrefix", prefixArgs, prefixArgs, "getBackendLocked: strings.HasPrefix(url, entry.url) / strings.HasPrefix(url, <copy of entry.url>) not found")
 	l.boolean("lookupAppendsSlash", slashAppended, slashAppended, "getBackendLocked: `if url[len(url)-1] != '/' { url += \"/\" }` not found")
+	// a tree that compares with entry.url as stored is described too (the fact is then `false`, the model follows, C13_facts breaks)
+	l.boolean("lookupEntrySlashTerminated", entrySlash, true, "")
 
 	// ---- BackendConfiguration.GetBackend: `if hasDotSegments(u) { return nil }` before the storage lookup ----
 	dotGuard := false
